@@ -79,6 +79,12 @@ theorem awaiting_index_guarded :
       ((at_ "Hippocampus.mem").any (·.fn == f)) && (((at_ "Hippocampus.mem").filter (·.fn == f)).all (excl "Hippocampus.mux"))) = true := by
   decide +kernel
 
+/-- the duplicate-suppression memory (C11): "seen before? then remember" is one step under the flashback mutex -/
+theorem flashback_test_and_set_atomic :
+    (["Flashback.HasHash", "Flashback.HasAddress"].all fun f =>
+      ((at_ "Flashback.mem").any (·.fn == f)) && (((at_ "Flashback.mem").filter (·.fn == f)).all (excl "Flashback.mux"))) = true := by
+  decide +kernel
+
 /-- the challenge store -/
 theorem challenge_store_guarded : guardedBy "Cache.data" "Cache.mux" = true := by decide +kernel
 
